@@ -7,6 +7,7 @@ import (
 	"encoding/hex"
 	"fmt"
 	"io"
+	"reflect"
 	"time"
 
 	"github.com/foxboron/go-uefi/efi/signature"
@@ -144,3 +145,71 @@ func PausingReader(r io.Reader) io.Reader { return &pausingReader{r: r, pause: 1
 
 // LongPausingReader: three (0, nil) in a row between reads with data.
 func LongPausingReader(r io.Reader) io.Reader { return &pausingReader{r: r, pause: 3} }
+
+// scribbleResult overwrites everything a caller can reach in a value the library returned: every
+// element (spare capacity included) of every byte and integer slice behind exported fields,
+// recursively. What an operation returns belongs to the caller; if it is the library's own storage
+// (an exported table, an OID variable, a buffer of the object), later calls show it.
+func scribbleResult(v any) {
+	seen := map[uintptr]bool{}
+	var walk func(rv reflect.Value, depth int)
+	walk = func(rv reflect.Value, depth int) {
+		if depth > 8 || !rv.IsValid() {
+			return
+		}
+		switch rv.Kind() {
+		case reflect.Ptr:
+			if rv.IsNil() || seen[rv.Pointer()] {
+				return
+			}
+			seen[rv.Pointer()] = true
+			walk(rv.Elem(), depth+1)
+		case reflect.Interface:
+			if !rv.IsNil() {
+				walk(rv.Elem(), depth+1)
+			}
+		case reflect.Struct:
+			t := rv.Type()
+			if t.PkgPath() == "crypto/x509" || t.PkgPath() == "math/big" || t.PkgPath() == "time" {
+				return // values of other packages are not taken apart
+			}
+			for i := 0; i < rv.NumField(); i++ {
+				if t.Field(i).IsExported() {
+					walk(rv.Field(i), depth+1)
+				}
+			}
+		case reflect.Slice:
+			if rv.IsNil() {
+				return
+			}
+			ek := rv.Type().Elem().Kind()
+			full := rv
+			if rv.CanAddr() {
+				full = rv.Slice(0, rv.Cap())
+			}
+			switch ek {
+			case reflect.Uint8, reflect.Uint16, reflect.Uint32, reflect.Uint64, reflect.Uint:
+				for i := 0; i < full.Len(); i++ {
+					if full.Index(i).CanSet() {
+						full.Index(i).SetUint(0x5a)
+					}
+				}
+			case reflect.Int, reflect.Int8, reflect.Int16, reflect.Int32, reflect.Int64:
+				for i := 0; i < full.Len(); i++ {
+					if full.Index(i).CanSet() {
+						full.Index(i).SetInt(0x5a)
+					}
+				}
+			default:
+				for i := 0; i < rv.Len() && i < 64; i++ {
+					walk(rv.Index(i), depth+1)
+				}
+			}
+		case reflect.Array:
+			for i := 0; i < rv.Len() && i < 64; i++ {
+				walk(rv.Index(i), depth+1)
+			}
+		}
+	}
+	walk(reflect.ValueOf(v), 0)
+}
